@@ -29,6 +29,21 @@ def run(tier, rep):
     rep.coverage["pass_relations"] = pst
     if pst["dce"]["programs"] < 100 or pst["anf_order"]["programs"] < 100 or pst["dce"]["effect_atoms"] < 1000:
         raise ToolError(f"vacuity: pass relations evaluated on too little: {pst}")
+    # ---- the design of the pass: DceModel.tla is dce_block_with_live written like the code; TLC enumerates every valid abstract
+    # program of the bounded shape and checks the output (same effects with the same values on every branch choice, valid Go,
+    # idempotent).  Three configurations must FAIL: the algorithm's two assumptions about its input (no loop-carried local, no
+    # assignment reading its own target) and the purity rule as it was before fix 9297588
+    dm = run_tlc("DceModel", "DceModel_small.cfg", workers=6, xmx="8g", xss="512m", timeout=1200)
+    if not tlc_ok(dm, "DceModel_small.cfg"):
+        rep.violation(f"model:DceModel_small:{dm.violated}", {"trace": dm.trace[-2:]})
+    if dm.distinct < 2000:
+        raise ToolError(f"vacuity: DceModel enumerated only {dm.distinct} programs")
+    for cfg in ("DceModel_carried.cfg", "DceModel_selfassign.cfg", "DceModel_failing.cfg"):
+        r_ = run_tlc("DceModel", cfg, workers=4, xmx="8g", xss="512m", timeout=1200)
+        if r_.violated != "SameEffects":
+            raise ToolError(f"model self-test: {cfg} should violate SameEffects, got {r_.violated or r_.error}")
+    rep.coverage["dce_model_programs"] = dm.distinct
+    rep.coverage["states"] = rep.coverage.get("states", 0) + dm.distinct
     import c09go
     c09go.run(tier, rep)
     rep.coverage["traces_validated_against_impl"] = rep.coverage.get("disagreements_checked", 0) + rep.coverage.get("go_schedules_checked", 0)
